@@ -137,24 +137,25 @@ ghost_after('PartBatcher._try_move_part_to_output', '<entry>', g_k='0')
 ghost_after('PartBatcher._try_move_part_to_output', 'self._add_part_to_output(part_in_transition)', g_k='g_k + 1')
 
 
-def _moved(at):
-    """element-wise statement of  pending' == pending  after g_k leaves were moved; `at` = old / at_loop_entry"""
-    in_is_batch = f'{at}(typed(self._part, "Batch"))'
-    n_in = f'{at}(ite(typed(self._part, "Batch"), len(bparts(self._part)), 1))'
-    in_at = lambda i: f'{at}(ite(typed(self._part, "Batch"), bparts(self._part)[{i}], self._part))'
+def _moved(at, inp='self._part'):
+    """element-wise statement of  pending' == pending  after g_k leaves were moved; `at` = old / at_loop_entry;
+    `inp`: the input item the leaves are taken from (the held input; for give_part the part handed in)"""
+    in_is_batch = f'{at}(typed({inp}, "Batch"))'
+    n_in = f'{at}(ite(typed({inp}, "Batch"), len(bparts({inp})), 1))'
+    in_at = lambda i: f'{at}(ite(typed({inp}, "Batch"), bparts({inp})[{i}], {inp}))'
     m0 = f'{at}(ite(self._in_progress_batch is None, 0, len(self._in_progress_batch.parts)))'
     return {
         'moved_count_in_range': f'0 <= g_k and g_k <= {n_in}',
         'input_is_the_unmoved_suffix':
-            f'ite(g_k == {n_in}, self._part is None, self._part is {at}(self._part)) and '
-            f'implies({in_is_batch}, len({at}(bparts(self._part))) == {n_in} - g_k and '
-            f'  all({at}(bparts(self._part))[i - g_k] is {in_at("i")} for i in range(g_k, {n_in})))',
+            f'ite(g_k == {n_in}, self._part is None, self._part is {at}({inp})) and '
+            f'implies({in_is_batch}, len({at}(bparts({inp}))) == {n_in} - g_k and '
+            f'  all({at}(bparts({inp}))[i - g_k] is {in_at("i")} for i in range(g_k, {n_in})))',
         'single_mode_outputs_the_first_leaf':
             f'implies(isnone(self._output_batch_size), g_k <= 1 and self._in_progress_batch is None and '
             f'  ite(g_k == 1, self._output is {in_at("0")}, self._output is None))',
         'batch_mode_collects_the_moved_prefix_behind_what_was_collected':
             f'implies(not isnone(self._output_batch_size) and g_k >= 1, '
-            f'  {RECV} is not None and typed({RECV}, "Batch") and {RECV} is not {at}(self._part) and '
+            f'  {RECV} is not None and typed({RECV}, "Batch") and {RECV} is not {at}({inp}) and '
             f'  implies({at}(self._in_progress_batch is not None), {RECV} is {at}(self._in_progress_batch)) and '
             f'  len({RECV}.parts) == {m0} + g_k and '
             f'  all({RECV}.parts[j] is {at}(self._in_progress_batch.parts[j]) for j in range({m0})) and '
@@ -171,11 +172,8 @@ def _moved(at):
     }
 
 
-# KNOWN GAP (engine): `loop1.frame` of this loop is not provable.  The loop's `modifies` is resolved at loop entry and the
-# loop cut does not havoc `alive`, so the part list of a Batch allocated by an EARLIER iteration (in-progress batch was
-# None at entry, >= 2 leaves moved) can neither be named nor counts as "allocated since".  For the same reason the
-# loop-level clauses make no fresh()/alive() claim about that batch (the state at the loop head over-approximates it by
-# an arbitrary existing Batch distinct from the input); newness is proved in _add_part_to_output (fresh(...)).
+# The Batch started by an earlier iteration of the loop is known to the loop head as fresh_in_loop (allocated since loop
+# entry): its part list is outside the loop's frame obligation.
 ACTIVE = 'old(operational(self) and self._part is not None and self._output is None)'
 EMPTY_IN = 'old(typed(self._part, "Batch") and len(bparts(self._part)) == 0)'
 contract('PartBatcher._try_move_part_to_output', props=['C17'], args={},
@@ -208,7 +206,10 @@ loop('PartBatcher._try_move_part_to_output', 1, 'while self._output == None and 
      dict(_moved('at_loop_entry'), **B_INVS,
           entered_with_input='at_loop_entry(self._part is not None and self._output is None and '
                              '              implies(typed(self._part, "Batch"), len(bparts(self._part)) >= 1))',
-          no_external_calls='trace_len() == at_loop_entry(trace_len())'),
+          no_external_calls='trace_len() == at_loop_entry(trace_len())',
+          a_batch_started_by_this_loop_is_new=
+          f'implies(at_loop_entry(self._in_progress_batch is None) and {RECV} is not None and g_k >= 1 and '
+          f'        not isnone(self._output_batch_size), fresh_in_loop({RECV}) and fresh_in_loop({RECV}.parts))'),
      modifies=['self._part', 'self._output', 'self._in_progress_batch', IN_LIST, WIP_LIST, '*.Asset._id_counter', '$trace'])
 
 # --------------------------------------------------------------------------- Batch: routing history reaches every part
@@ -264,12 +265,7 @@ contract('Batch.__init__', props=['C17'], invariants='prove_only', fresh_self=Tr
                       'ite(parts is None, fresh(self.parts) and len(self.parts) == 0, self.parts is parts)',
                   'no_value_of_its_own': 'self._value == 0 and self._initial_value == 0 and self._env is None'})
 
-# --------------------------------------------------------------------------- counting the parts an item stands for
-contract('Buffer._get_part_count', props=['C17'], kind='static', args={'part': 'ref:Part'}, result='int', modular=True,
-         requires={'batch_has_a_part_list': 'implies(part is not None and typed(part, "Batch"), bparts(part) is not None)'},
-         ensures={'counts_every_part_of_a_batch_one_otherwise':
-                      'result == ite(part is None, 1, leafcount(part)) and result >= 0'},
-         modifies=[])
+# (Buffer._get_part_count: contract in contracts/buffer.py, tagged C05 and C17)
 
 # --------------------------------------------------------------------------- continue unpacking after the output left
 # While a downstream neighbour runs (give_part) the part lists of the input being unpacked and of the batch under
@@ -297,3 +293,33 @@ contract('PartBatcher._pass_part_downstream', props=['C17', 'C02'], args={},
                  'implies(old(self._part) is None, self._part is None and g_k == 0 and '
                  '        (self._output is None or self._output is old(self._output)))',
          })
+
+
+# --------------------------------------------------------------------------- acceptance: only when nothing is left to unpack
+# The batcher's cycle time is 0: an accepted item is unpacked at once (PartBatcher._try_move_part_to_output overrides the
+# holder's "start the cycle").  g_k: leaves moved during the acceptance.
+ghost_after('PartHandler.give_part', '<entry>', g_k='0')
+GP_NONEMPTY = 'not old(typed(part, "Batch") and len(bparts(part)) == 0)'
+contract('PartHandler.give_part@PartBatcher', props=['C17', 'C02'], for_cls=['PartBatcher'], args={'part': 'ref:Part'}, result='bool',
+         requires={'initialised': 'self._env is not None and alive(self._env)', 'clock_nonneg': 'self._env._now >= 0',
+                   'item_wellformed': 'part is None or item_wf(part)',
+                   'item_is_not_held_already':
+                       'implies(part is not None, part is not self._in_progress_batch and part is not self._output and '
+                       '  implies(typed(part, "Batch"), not_own_list(self, bparts(part)) and '
+                       '    implies(self._in_progress_batch is not None, bparts(part) is not self._in_progress_batch.parts)))'},
+         ensures=dict(
+             {f'moves/{k}': f'implies(result and {GP_NONEMPTY}, {v})' for k, v in _moved('old', 'part').items()},
+             accepts_only_with_nothing_left_to_unpack_and_nothing_waiting_to_leave=
+             'result == old(operational(self) and part is not None and not self._block_input and self._part is None and '
+             '              self._output is None)',
+             refusal_changes_nothing=
+             'implies(not result, g_k == 0 and self._part is old(self._part) and self._output is old(self._output) and '
+             '  self._in_progress_batch is old(self._in_progress_batch) and trace_len() == old(trace_len()) and '
+             '  implies(part is not None and typed(part, "Batch"), seq(bparts(part)) == old(seq(bparts(part)))) and '
+             '  implies(self._in_progress_batch is not None, '
+             '          seq(self._in_progress_batch.parts) == old(seq(self._in_progress_batch.parts))))',
+             accepted_item_is_unpacked_at_once=
+             f'implies(result and {GP_NONEMPTY}, g_k >= 1 and (self._output is not None or self._part is None))',
+             empty_batch_is_discarded=
+             f'implies(result and not {GP_NONEMPTY}, g_k == 0 and self._part is None and self._output is None and '
+             '  self._in_progress_batch is old(self._in_progress_batch))'))
